@@ -65,7 +65,7 @@ func genC20String(t *rapid.T, label string) string {
 	case 1:
 		return " "
 	case 2:
-		return rapid.SampledFrom([]string{" lead", "trail ", "#EL12", "123456_A..N", "-", "0", "NULL", "a b", "\tx", "01 0603+ SFT/242", "A&B<c>'d'", strings.Repeat("0123456789abcdef", 300)}).Draw(t, label+"Const")
+		return rapid.SampledFrom([]string{" lead", "trail ", "#EL12", "123456_A..N", "-", "0", "NULL", "a b", "\tx", "01 0603+ SFT/242", "A&B<c>'d'", strings.Repeat("0123456789abcdef", 300), strings.Repeat("0123456789abcdef", 4200)}).Draw(t, label+"Const")
 	default:
 		return rapid.StringOfN(rapid.SampledFrom(c20SafeRunes), 0, 12, -1).Draw(t, label)
 	}
@@ -93,7 +93,7 @@ func genC20(t *rapid.T) CaseC20 {
 	c.Zone = rapid.SampledFrom([]string{"UTC", "America/New_York", "Asia/Kathmandu", "fixed"}).Draw(t, "zone")
 	n := rapid.IntRange(0, 8).Draw(t, "numTrips")
 	if rapid.IntRange(0, 24).Draw(t, "sizeClass") == 0 {
-		n = rapid.SampledFrom([]int{17, 33, 70, 130}).Draw(t, "manyTrips")
+		n = rapid.SampledFrom([]int{17, 33, 70, 130, 260, 520}).Draw(t, "manyTrips")
 	}
 	for i := 0; i < n; i++ {
 		var tr C20Trip
